@@ -797,10 +797,12 @@ impl Arena {
     let mut allocated = header.allocated.load(Ordering::Acquire);
 
     loop {
-      let want = allocated + size;
-      if want > self.cap {
+      // computed in u64: `allocated + size` must not wrap for any requested size.
+      let want = allocated as u64 + size as u64;
+      if want > self.cap as u64 {
         break;
       }
+      let want = want as u32;
 
       match header.allocated.compare_exchange_weak(
         allocated,
@@ -946,10 +948,12 @@ impl Arena {
     let want = loop {
       let aligned_offset = align_offset::<T>(allocated);
       let size = mem::size_of::<T>() as u32;
-      let want = aligned_offset + size + extra;
-      if want > self.cap {
-        break size + extra;
+      // computed in u64: the sum must not wrap for any `extra`.
+      let want = aligned_offset as u64 + size as u64 + extra as u64;
+      if want > self.cap as u64 {
+        break size.saturating_add(extra);
       }
+      let want = want as u32;
 
       match header.allocated.compare_exchange_weak(
         allocated,
@@ -973,6 +977,14 @@ impl Arena {
     };
 
     // allocate through slow path
+    // the padded request must itself fit in a u32, otherwise no segment can serve it.
+    let Some(padded) = (Self::pad::<T>() as u32).checked_add(extra) else {
+      return Err(Error::InsufficientSpace {
+        requested: u32::MAX,
+        available: self.remaining() as u32,
+      });
+    };
+
     let mut i = 0;
     loop {
       match self.freelist {
@@ -983,7 +995,7 @@ impl Arena {
           });
         }
         Freelist::Optimistic => {
-          match self.alloc_slow_path_optimistic(Self::pad::<T>() as u32 + extra) {
+          match self.alloc_slow_path_optimistic(padded) {
             Ok(mut bytes) => {
               bytes.align_bytes_to::<T>();
               return Ok(Some(bytes));
@@ -996,7 +1008,7 @@ impl Arena {
           }
         }
         Freelist::Pessimistic => {
-          match self.alloc_slow_path_pessimistic(Self::pad::<T>() as u32 + extra) {
+          match self.alloc_slow_path_pessimistic(padded) {
             Ok(mut bytes) => {
               bytes.align_bytes_to::<T>();
               return Ok(Some(bytes));
@@ -1097,10 +1109,12 @@ impl Arena {
     let want = loop {
       let align_offset = align_offset::<T>(allocated);
       let size = t_size as u32;
-      let want = align_offset + size;
-      if want > self.cap {
+      // computed in u64: the sum must not wrap for any `T`.
+      let want = align_offset as u64 + size as u64;
+      if want > self.cap as u64 {
         break size;
       }
+      let want = want as u32;
 
       match header.allocated.compare_exchange_weak(
         allocated,
